@@ -49,6 +49,11 @@ def fake_get(url, *a, **k):
         return Resp({"tag_name": "continuous-integration-nightly-snapshot-build"})
     if b == "hugetag":
         return Resp({"tag_name": "release-" + "a-" * 4000 + "x"})
+    if b == "digittag":
+        # a build-stamp style tag: long runs of digits, dots and letters that no version scheme accepts
+        return Resp({"tag_name": "nightly-2026092703150001234567890123456789+g1a2b3c4"})
+    if b == "dottag":
+        return Resp({"tag_name": "v" + "1." * 40 + "x!"})
     if b == "notag":
         return Resp({})
     if b == "list":
@@ -197,14 +202,26 @@ try:
 except TypeError:
     r0 = CliRunner()
 t = time.monotonic()
-if cli is not None:
-    r = r0.invoke(cli, args)
-else:
-    r = r0.invoke(getattr(C, args[0].replace("-", "_")), args[1:])
+try:
+    if cli is not None:
+        r = r0.invoke(cli, args)
+    else:
+        r = r0.invoke(getattr(C, args[0].replace("-", "_")), args[1:])
+except BaseException as _e:
+    # the command runner itself was brought down (e.g. its output streams were exchanged under it by another thread):
+    # reported like any other abnormal end of the command
+    sys.__stdout__.write(json.dumps({"exit": None, "exc": "runner stopped: " + type(_e).__name__ + ": " + str(_e)[:120], "stdout": "", "dt": time.monotonic() - t}) + "\n")
+    sys.__stdout__.flush()
+    os._exit(0)
 dt = time.monotonic() - t
 exc = None
 if r.exception is not None and not isinstance(r.exception, SystemExit):
     exc = type(r.exception).__name__
-print(json.dumps({"exit": r.exit_code, "exc": exc, "stdout": r.stdout, "dt": dt}))
-sys.stdout.flush()
+# (to the interpreter's original standard output: code under test may have replaced sys.stdout)
+try:
+    _so = r.stdout
+except Exception as _e:  # the runner's capture was taken away from under it
+    _so, exc = "", exc or ("stdout capture lost: " + type(_e).__name__)
+sys.__stdout__.write(json.dumps({"exit": r.exit_code, "exc": exc, "stdout": _so, "dt": dt}) + "\n")
+sys.__stdout__.flush()
 # leave like a real process: daemon threads must not keep it alive
